@@ -393,7 +393,8 @@ func (gn *GlobalNode) set(key string, change string) error {
 }
 
 func (gn *GlobalNode) update(changes config.StringMap) error {
-	for key, value := range changes.Fields {
+	for _, key := range changes.SortedKeys() {
+		value := changes.Fields[key]
 		if err := gn.set(key, value); err != nil {
 			return err
 		}
